@@ -23,6 +23,11 @@ type PropertySpec struct {
 	Bounds   map[string]string // tier-independent description of bounds (quick/thorough)
 	PreemptQ int
 	PreemptT int
+	// manifest texts
+	LevelText string
+	LevelNote string
+	Technique string
+	DesignRef string
 }
 
 type KnownFinding struct {
@@ -53,7 +58,7 @@ func LoadKnownFindings(path string) ([]KnownFinding, error) {
 		if m == nil {
 			continue
 		}
-		out = append(out, KnownFinding{Status: m[1], Property: m[2], Obligation: m[3], Text: m[4]})
+		out = append(out, KnownFinding{Status: m[1], Property: m[2], Obligation: m[3], Text: strings.TrimSpace(strings.TrimPrefix(strings.TrimSpace(m[4]), "::"))})
 	}
 	return out, sc.Err()
 }
